@@ -124,7 +124,7 @@ func NewMachine(p *Program) *Machine {
 		initing:         map[*ssa.Package]bool{},
 		maxDepth:        400,
 		maxSteps:        200_000_000,
-		maxSymBackEdges: 100000,
+		maxSymBackEdges: 4000,
 		intr:            map[*ssa.Function]intrinsicFn{},
 		noIntr:          map[*ssa.Function]bool{},
 		cover:           map[*ssa.Function]bool{},
